@@ -37,7 +37,9 @@ ASSUMED = {
     'C15': ['contracts of lanczos_iteration / arnoldi_iteration as proved in C14 (sizes; for lanczos_iteration also orthonormal vectors and projected map = tridiagonal matrix, used in operator form through Krylov.lean), eigh_tridiagonal and expm return arrays of the documented shapes',
             'scipy.linalg.eigh_tridiagonal(d, e): real ascending eigenvalues, real orthogonal eigenvector matrix (orthonormal columns and rows), T U[:, a] = w[a] U[:, a]; np.exp: |exp(z)|^2 = exp(2 Re z); array * array is entrywise (conformance-tested)',
             'the map is linear (needed for the Rayleigh-quotient clause only) and a function of its argument; exact real/complex arithmetic instead of floating point'],
-    'C16': [], 'C17': [], 'C18': ['the Lean lemma is about abstract finite sets of edges; its link to the Python data structures is not machine-checked'],
+    'C16': [], 'C17': [], 'C18': ['the Lean lemma is about abstract finite sets of edges; its link to the Python data structures is not machine-checked',
+                                   'heap level (vt/zhk.py): Python lists as z3 arrays; adjacency lists contain in-range vertices (class invariant of BipartiteGraph, established by its constructor: bounded); '
+                                   'self.dist is a dict distinct from the partner lists; partial correctness (termination of the recursion and of the while loop is not claimed)'],
     'C19': ['callable arguments (Afunc, opics(i), active(i)) do not modify their arguments (their results are treated as caller-owned memory that may alias the arguments)', 'unknown methods are pure and may return a view of their receiver',
             'which values are immutable (ints, tuples) is unknown to the analysis: must-alias of results needs native confirmation'],
     'C20': [],
@@ -62,7 +64,7 @@ BOUNDED_ONLY = {
     'C15': ['Ritz value bounds', 'exactness once the Krylov space is exhausted', 'general (Arnoldi) branch of the exponential', 'floating-point residuals of the discharged clauses (norm preservation, orthonormal Ritz vectors, Rayleigh quotients)'],
     'C16': ['rewrites preserve the denoted operator', 'is_consistent after every rewrite', 'simplify never increases node/edge counts'],
     'C17': ['graph of trees denotes the padded sum', 'unrolled automaton denotes the sum over paths', 'dense meaning agrees with the symbolic meaning'],
-    'C18': ['matching consists of existing edges without shared vertices', 'maximality', 'cover touches every edge and has the size of the matching', 'termination'],
+    'C18': ['maximality of the matching', 'cover touches every edge and has the size of the matching', 'termination', 'duplicate edges / class invariant of BipartiteGraph'],
     'C19': ['may-alias results of engine F (6 obligations) and all byte-level snapshots'],
     'C20': ['bond dimension equals the operator Schmidt rank', 'chain-count bound', 'simplify never increases a bond dimension'],
 }
